@@ -8,6 +8,7 @@ import (
 	"go/token"
 	"go/types"
 	"os"
+	"sort"
 	"strings"
 
 	"golang.org/x/tools/go/ssa"
@@ -266,7 +267,7 @@ func (d *distinctEngine) dedupConstructOnPath(f *ssa.Function, v ssa.Value, dept
 				return
 			case p == "slices" && n == "Compact":
 				found = true
-				if !sortedCompact(f, y) {
+				if !sortedCompact(f, y) && !anySortBefore(f, y) {
 					badCompact = "slices.Compact at " + d.w.Pos(y.Pos()) + " removes adjacent duplicates only and the list is not sorted before"
 				}
 				return
@@ -298,6 +299,37 @@ func (d *distinctEngine) dedupConstructOnPath(f *ssa.Function, v ssa.Value, dept
 		case *ssa.MakeMap:
 			// a map on the derivation (ranged into the result, or handed to a helper)
 			found = true
+		case *ssa.MakeSlice:
+			// a pre-sized list filled by index: what is stored, the lists the filling loops run
+			// over, and the list its length is taken from
+			if y.Referrers() != nil {
+				for _, ref := range *y.Referrers() {
+					ia, ok := ref.(*ssa.IndexAddr)
+					if !ok || ia.Referrers() == nil {
+						continue
+					}
+					for _, r2 := range *ia.Referrers() {
+						st, ok := r2.(*ssa.Store)
+						if !ok || st.Addr != ssa.Value(ia) {
+							continue
+						}
+						walk(st.Val, dd+1)
+						for _, sr := range findSliceRanges(f) {
+							if sr.blocks()[st.Block()] {
+								walk(sr.X, dd+1)
+							}
+						}
+						for _, mr := range findMapRanges(f) {
+							if mr.blocks()[st.Block()] {
+								found = true
+							}
+						}
+					}
+				}
+			}
+			if lc, ok := resolve(y.Len).(*ssa.Call); ok && builtinName(lc) == "len" {
+				walk(lc.Call.Args[0], dd+1)
+			}
 		case *ssa.UnOp:
 			walk(y.X, dd+1)
 		}
@@ -613,10 +645,27 @@ func ruleDistinct(w *World, r *Report, f *ssa.Function) {
 			r.Add(Obligation{Rule: "DISTINCT", Key: "DISTINCT / " + key, Pos: w.Pos(ret.Pos()), Status: Discharged, Detail: "returned list is the key set of a map / result of a de-duplicating call", Canary: w.IsCanary(f)})
 			continue
 		}
+		// a single exit (named results, one `return list, err`): only the values that arrive
+		// together with a nil error are success results
+		lists, uncertain := successValues(f, ret, 0)
+		allDistinct := len(lists) > 0
+		for _, l := range lists {
+			if !d.valueDistinct(f, l, 0) {
+				allDistinct = false
+			}
+		}
+		if allDistinct && !uncertain {
+			r.Add(Obligation{Rule: "DISTINCT", Key: "DISTINCT / " + key, Pos: w.Pos(ret.Pos()), Status: Discharged, Detail: "every list that reaches the single exit together with a nil error is de-duplicated", Canary: w.IsCanary(f)})
+			continue
+		}
 		// not proven.  Positive evidence of a violation: nothing on the way removes
 		// duplicates at all, or a Compact on an unsorted list; otherwise no verdict.
 		found, badCompact := true, ""
-		for _, leaf := range phiLeaves(resolve(ret.Results[0])) {
+		var leaves []ssa.Value
+		for _, l := range lists {
+			leaves = append(leaves, phiLeaves(resolve(l))...)
+		}
+		for _, leaf := range leaves {
 			if ph, isPhi := leaf.(*ssa.Phi); isPhi && ph == resolve(ret.Results[0]) {
 				continue
 			}
@@ -637,6 +686,8 @@ func ruleDistinct(w *World, r *Report, f *ssa.Function) {
 		switch {
 		case badCompact != "":
 			r.Add(Obligation{Rule: "DISTINCT", Key: "DISTINCT / " + key, Pos: w.Pos(ret.Pos()), Status: Violated, Detail: "returned list " + ret.Results[0].Name() + " is not duplicate-free: " + badCompact, Canary: w.IsCanary(f)})
+		case !found && uncertain:
+			r.Add(Obligation{Rule: "DISTINCT", Key: "DISTINCT / " + key, Pos: w.Pos(ret.Pos()), Status: Undecided, Detail: "a list without de-duplication reaches the single exit, but whether it arrives together with a nil error could not be determined (" + describeValue(ret.Results[0]) + ")", Canary: w.IsCanary(f)})
 		case !found:
 			r.Add(Obligation{Rule: "DISTINCT", Key: "DISTINCT / " + key, Pos: w.Pos(ret.Pos()), Status: Violated, Detail: "returned list " + ret.Results[0].Name() + " does not pass through a de-duplication on this path (" + describeValue(ret.Results[0]) + "), and nothing in its derivation removes duplicates", Canary: w.IsCanary(f)})
 		default:
@@ -1124,29 +1175,108 @@ func oracleFor(pairs []pairRel) func(cond ssa.Value) (bool, bool) {
 // the outcome.  Blocks in stop are not entered.  Returns the reachable blocks
 // and the set of CFG edges taken.
 func simulate(start *ssa.BasicBlock, stop map[*ssa.BasicBlock]bool, oracle func(ssa.Value) (bool, bool)) map[*ssa.BasicBlock]bool {
+	// Boolean phis (the value form of && and ||, flags such as isTarget := a && b) are
+	// tracked along the path: entering a block by an edge fixes the value of its bool
+	// phis when the incoming value is a constant, a tracked phi, or decided by the oracle.
 	seen := map[*ssa.BasicBlock]bool{}
-	var walk func(b *ssa.BasicBlock)
-	walk = func(b *ssa.BasicBlock) {
-		if seen[b] || stop[b] {
+	type state struct {
+		b   *ssa.BasicBlock
+		env string
+	}
+	visited := map[state]bool{}
+	budget := 4000
+	envKey := func(env map[*ssa.Phi]bool) string {
+		if len(env) == 0 {
+			return ""
+		}
+		var parts []string
+		for p, v := range env {
+			parts = append(parts, fmt.Sprintf("%s=%v", p.Name(), v))
+		}
+		sort.Strings(parts)
+		return strings.Join(parts, ",")
+	}
+	var evalB func(v ssa.Value, env map[*ssa.Phi]bool) (bool, bool)
+	evalB = func(v ssa.Value, env map[*ssa.Phi]bool) (bool, bool) {
+		switch x := v.(type) {
+		case *ssa.Const:
+			if x.Value != nil {
+				return x.Value.String() == "true", true
+			}
+		case *ssa.Phi:
+			if val, ok := env[x]; ok {
+				return val, true
+			}
+			return false, false
+		case *ssa.UnOp:
+			if x.Op == token.NOT {
+				val, ok := evalB(x.X, env)
+				return !val, ok
+			}
+		}
+		return oracle(v)
+	}
+	var walk func(b, from *ssa.BasicBlock, env map[*ssa.Phi]bool)
+	walk = func(b, from *ssa.BasicBlock, env map[*ssa.Phi]bool) {
+		if stop[b] || budget <= 0 {
 			return
 		}
+		budget--
+		// bool phis of b under the entering edge
+		var next map[*ssa.Phi]bool
+		if from != nil {
+			for _, in := range b.Instrs {
+				ph, ok := in.(*ssa.Phi)
+				if !ok {
+					break
+				}
+				if bt, isB := ph.Type().Underlying().(*types.Basic); !isB || bt.Kind() != types.Bool {
+					continue
+				}
+				for k, pred := range b.Preds {
+					if pred != from || k >= len(ph.Edges) {
+						continue
+					}
+					if next == nil {
+						next = map[*ssa.Phi]bool{}
+						for p, v := range env {
+							next[p] = v
+						}
+					}
+					if val, known := evalB(ph.Edges[k], env); known {
+						next[ph] = val
+					} else {
+						delete(next, ph)
+					}
+					break
+				}
+			}
+		}
+		if next != nil {
+			env = next
+		}
+		st := state{b, envKey(env)}
+		if visited[st] {
+			return
+		}
+		visited[st] = true
 		seen[b] = true
 		t, f, i := ifSuccs(b)
 		if i != nil {
-			if out, known := oracle(i.Cond); known {
+			if out, known := evalB(i.Cond, env); known {
 				if out {
-					walk(t)
+					walk(t, b, env)
 				} else {
-					walk(f)
+					walk(f, b, env)
 				}
 				return
 			}
 		}
 		for _, s := range b.Succs {
-			walk(s)
+			walk(s, b, env)
 		}
 	}
-	walk(start)
+	walk(start, nil, map[*ssa.Phi]bool{})
 	return seen
 }
 
@@ -1429,6 +1559,26 @@ func ruleElementwise(w *World, r *Report, fn string, pidx int) {
 		if !changes {
 			continue
 		}
+		// a value that no instruction of the loop reads (an error or result variable that
+		// is overwritten in every iteration and only looked at after the loop) carries
+		// nothing from one element to the next
+		readInLoop := false
+		if p.Referrers() != nil {
+			for _, ref := range *p.Referrers() {
+				if _, isDbg := ref.(*ssa.DebugRef); isDbg {
+					continue
+				}
+				if q, isPhi := ref.(*ssa.Phi); isPhi && (q == p || !blocks[q.Block()] || q.Block() == loop.Header) {
+					continue
+				}
+				if blocks[ref.Block()] || ref.Block() == loop.Header {
+					readInLoop = true
+				}
+			}
+		}
+		if !readInLoop {
+			continue
+		}
 		bad = "loop-carried value " + p.Name() + " (" + p.Comment + ", " + p.Type().String() + ") is remembered from one element to the next"
 	}
 	// state carried through memory: a local variable declared before the loop,
@@ -1529,6 +1679,13 @@ func ruleNoSkip(w *World, r *Report, fn string) {
 		switch x := in.(type) {
 		case *ssa.MapUpdate:
 			return true
+		case *ssa.Store:
+			// an indexed store into a list that exists outside this iteration (a pre-sized
+			// result filled by index) records the element like an append does
+			if ia, ok := x.Addr.(*ssa.IndexAddr); ok && isSlice(ia.X.Type()) {
+				return true
+			}
+			return false
 		case *ssa.Call:
 			if builtinName(x) == "append" {
 				return true
@@ -2390,4 +2547,113 @@ func appendLoopsOn(ap *ssa.Call, header *ssa.BasicBlock, blocks map[*ssa.BasicBl
 		}
 	}
 	return false
+}
+
+// successValues: the values result #idx can have at this return when the
+// error result is nil.  For an ordinary return that is the operand itself.
+// For a single exit whose operands are phis of one block (named results, one
+// `return v, err`), only the incoming values paired with a nil (or not
+// classifiable: uncertain) error are kept.
+func successValues(f *ssa.Function, ret *ssa.Return, idx int) (vals []ssa.Value, uncertain bool) {
+	// a result kept in a variable (named results of a function with defer, a result that a
+	// closure assigns): everything ever stored into it, flow-insensitively
+	if idx < len(ret.Results) {
+		if ld, ok := ret.Results[idx].(*ssa.UnOp); ok && ld.Op == token.MUL && resolve(ld) == ssa.Value(ld) {
+			if al, ok := ld.X.(*ssa.Alloc); ok {
+				if stored := storesInto(al); len(stored) > 0 {
+					return stored, true
+				}
+			}
+		}
+	}
+	ei := errResultIndex(f)
+	if ei < 0 || ei >= len(ret.Results) || idx >= len(ret.Results) {
+		return []ssa.Value{ret.Results[idx]}, false
+	}
+	pe, okE := ret.Results[ei].(*ssa.Phi)
+	if !okE {
+		return []ssa.Value{ret.Results[idx]}, false
+	}
+	pv, okV := ret.Results[idx].(*ssa.Phi)
+	for i, e := range pe.Edges {
+		cls := classifyErrValue(f, e, pe.Block().Preds[i], map[ssa.Value]bool{})
+		if cls == retError {
+			continue
+		}
+		if cls == retUnknown {
+			uncertain = true
+		}
+		if okV && pv.Block() == pe.Block() {
+			vals = append(vals, pv.Edges[i])
+		} else {
+			vals = append(vals, ret.Results[idx])
+		}
+	}
+	return vals, uncertain
+}
+
+// storesInto: the values stored into the local variable, in this function and in
+// the closures that captured it (loads of the variable itself are skipped: x = f(x)).
+func storesInto(al *ssa.Alloc) []ssa.Value {
+	var out []ssa.Value
+	seen := map[ssa.Value]bool{}
+	var scan func(addr ssa.Value, depth int)
+	scan = func(addr ssa.Value, depth int) {
+		if addr.Referrers() == nil || depth > 2 {
+			return
+		}
+		for _, ref := range *addr.Referrers() {
+			switch x := ref.(type) {
+			case *ssa.Store:
+				if x.Addr == addr && !seen[x.Val] {
+					seen[x.Val] = true
+					if c, isC := x.Val.(*ssa.Const); isC && c.Value == nil {
+						continue // = nil
+					}
+					out = append(out, x.Val)
+				}
+			case *ssa.MakeClosure:
+				fn, _ := x.Fn.(*ssa.Function)
+				for i, b := range x.Bindings {
+					if b == addr && fn != nil && i < len(fn.FreeVars) {
+						scan(fn.FreeVars[i], depth+1)
+					}
+				}
+			}
+		}
+	}
+	scan(al, 0)
+	return out
+}
+
+// anySortBefore: some sort of the compacted list precedes the Compact call -- a
+// natural sort, or one with a comparator the rule does not read (SortFunc,
+// sort.Slice, ...): the Compact is then not evidently applied to an unsorted list.
+func anySortBefore(f *ssa.Function, c *ssa.Call) bool {
+	if len(c.Call.Args) < 1 {
+		return false
+	}
+	arg := c.Call.Args[0]
+	found := false
+	instrs(f, func(in ssa.Instruction) {
+		sc, ok := in.(*ssa.Call)
+		if !ok || len(sc.Call.Args) < 1 {
+			return
+		}
+		p, n := stdCallName(sc)
+		if !((p == "slices" && strings.HasPrefix(n, "Sort")) || (p == "sort" && (n == "Slice" || n == "SliceStable" || n == "Sort" || n == "Stable" || n == "Strings" || n == "Ints" || n == "Float64s"))) {
+			return
+		}
+		a0 := sc.Call.Args[0]
+		if mi, isMI := a0.(*ssa.MakeInterface); isMI {
+			a0 = mi.X
+		}
+		if !equivValue(a0, arg) && resolve(a0) != resolve(arg) {
+			return
+		}
+		if sc.Block() == c.Block() || sc.Block().Dominates(c.Block()) {
+			found = true
+		}
+	})
+	return found
 }
